@@ -136,14 +136,32 @@ def obs_field(ver, o, c):
         return "-" if ver == "4" else esc(o.temporal_vector())
     if c == "e":
         return "-" if ver == "4" else esc(o.environmental_vector())
-    if c == "j":
-        return fmt_json(o.as_json(sort=False, minimal=False))
-    if c == "k":
-        return fmt_json(o.as_json(sort=False, minimal=True))
-    if c == "J":
-        return fmt_json(o.as_json(sort=True, minimal=False))
-    if c == "K":
-        return fmt_json(o.as_json(sort=True, minimal=True))
+    if c in "jkJK":
+        d = o.as_json(sort=c in "JK", minimal=c in "kK")
+        text = fmt_json(d)
+        # the returned dict belongs to the caller, and this caller ALWAYS scribbles on it after reading it: whatever the
+        # library hands out must be private to the call
+        try:
+            for k in list(d.keys()):
+                d[k] = "edited by the caller"
+            d.pop("vectorString", None)
+            d["baseScore"] = 61
+            d["added by the caller"] = []
+        except Exception:  # noqa
+            pass
+        return text
+    if c == "w":
+        # the public zero-argument compute_* steps run again (in definition order): recomputation is idempotent
+        names = sorted((n for n in dir(type(o)) if n.startswith("compute_") and callable(getattr(o, n, None))),
+                       key=lambda n: getattr(getattr(type(o), n), "__code__", None).co_firstlineno if hasattr(getattr(type(o), n), "__code__") else 0)
+        for n in names:
+            f = getattr(o, n)
+            try:
+                if f.__code__.co_argcount == 1:
+                    f()
+            except AttributeError:
+                pass
+        return "-"
     if c == "m":
         return str(o.minor_version) if ver == "3" else "-"
     return "?"
